@@ -79,12 +79,22 @@ def run(t):
         full = env
         for a in reversed(args):
             full = Program.new_pair(a, full)
-        r1 = outcome(mod.curry(*args), env, cost)
-        r2 = outcome(mod, full, cost)
+        r1, c1 = outcome2(mod.curry(*args), env, cost)
+        r2, c2 = outcome2(mod, full, cost)
         if r1 == r2:
-            return "ok same " + r1
+            # dc = cost(curried) - cost(module) when both succeed (C28_curried_run: 155 + 71 k)
+            return "ok same " + r1 + (" dc=%d" % (c1 - c2) if c1 is not None and c2 is not None else "")
         return "DIFF curried=%s module=%s" % (r1, r2)
     raise ValueError("bad py28 case")
+
+
+def outcome2(p, env, cost):
+    from clvm_rs import EvalError
+    try:
+        c, r = p.run_with_cost(env, cost)
+        return "val:" + show_tree_short(r), c
+    except EvalError as e:
+        return "err:" + str(e.args[0]).replace(" ", "_"), None
 
 
 def outcome(p, env, cost):
